@@ -7,10 +7,13 @@ import (
 	"errors"
 	"time"
 
+	"github.com/google/uuid"
 	"github.com/hydraide/hydraide/app/core/hydra"
 	"github.com/hydraide/hydraide/app/core/hydra/lock"
 	"github.com/hydraide/hydraide/app/core/hydra/swamp"
 	"github.com/hydraide/hydraide/app/core/hydra/swamp/metadata"
+	"github.com/hydraide/hydraide/app/core/hydra/swamp/treasure"
+	"github.com/hydraide/hydraide/app/core/hydra/swamp/treasure/guard"
 	"github.com/hydraide/hydraide/app/core/safeops"
 	"github.com/hydraide/hydraide/app/core/zeus"
 	"github.com/hydraide/hydraide/app/name"
@@ -62,10 +65,16 @@ func (f *gwHydra) GetLocker() lock.Lock { return f.lk }
 type gwZeus struct {
 	zeus.Zeus
 	h  *gwHydra
+	hz hydra.Hydra // overrides h when set
 	so safeops.Safeops
 }
 
-func (z *gwZeus) GetHydra() hydra.Hydra       { return z.h }
+func (z *gwZeus) GetHydra() hydra.Hydra {
+	if z.hz != nil {
+		return z.hz
+	}
+	return z.h
+}
 func (z *gwZeus) GetSafeops() safeops.Safeops { return z.so }
 
 func gwNew(h *verifrt.H) (Gateway, *gwHydra) {
@@ -462,4 +471,99 @@ func VerifC12Gateway(h *verifrt.H) {
 		h.Assert(matching == patched, "patched-results-equal-moved-records")
 		h.Cover("end")
 	})
+}
+
+// ---------- C19 at gateway level: event conversion and the stream ----------
+
+// c19stream is the server side of a subscription stream: SendMsg appends to a plain slice, like
+// a transport that (as gRPC documents) must not be used by two senders at once.
+type c19stream struct {
+	hydrapb.HydraideService_SubscribeToEventsServer
+	ctx  context.Context
+	sent []*hydrapb.SubscribeToEventsResponse
+}
+
+func (s *c19stream) Context() context.Context { return s.ctx }
+func (s *c19stream) SendMsg(m any) error {
+	s.sent = append(s.sent, m.(*hydrapb.SubscribeToEventsResponse))
+	return nil
+}
+
+// c19hydra extends the minimal server by a single subscriber slot.
+type c19hydra struct {
+	gwHydra
+	cb          func(*swamp.Event)
+	onSubscribe func()
+}
+
+func (f *c19hydra) SubscribeToSwampEvents(id uuid.UUID, n name.Name, cb func(*swamp.Event)) error {
+	f.cb = cb
+	if f.onSubscribe != nil {
+		f.onSubscribe()
+	}
+	return nil
+}
+func (f *c19hydra) UnsubscribeFromSwampEvents(id uuid.UUID, n name.Name) error {
+	f.cb = nil
+	return nil
+}
+
+// VerifC19Stream: the real SubscribeToEvents handler with its real conversion closure. Events
+// with a SYMBOLIC change time (UnixNano) and value are delivered by one or two writers
+// concurrently: every message carries the change's wall-clock time and value, and the stream is
+// never used by two senders at the same time (race detector).
+func VerifC19Stream(h *verifrt.H) {
+	h.BackgroundLowPriority(true)
+	hy := &c19hydra{gwHydra: gwHydra{lk: lock.New()}}
+	g := Gateway{ZeusInterface: &gwZeus{h: &hy.gwHydra, hz: hy, so: safeops.New()}}
+	st := &c19stream{ctx: context.Background()}
+	writers := h.Param("writers", 2)
+	var times [2]int64
+	var vals [2]int64
+	for w := 0; w < writers; w++ {
+		// representative instants (division by 10^9 on a fully symbolic 64-bit value does not
+		// terminate in any of the available solvers): sub-second, second boundaries, a real date
+		times[w] = []int64{1, 999_999_999, 1_000_000_000, 1_700_000_000_123_456_789}[h.Choose("eventTime", 4)]
+		vals[w] = h.Int64("value")
+	}
+	// the writers start as soon as the handler has registered its callback
+	hy.onSubscribe = func() {
+		for w := 0; w < writers; w++ {
+			w := w
+			h.Go("writer", func() {
+				t := treasureForEvent(vals[w], w)
+				hy.cb(&swamp.Event{SwampName: name.Load(gwSwamp), Treasure: t, StatusType: treasure.StatusNew, EventTime: times[w]})
+			})
+		}
+	}
+	h.Go("subscription", func() {
+		h.Daemon() // the handler blocks until the client goes away
+		_ = g.SubscribeToEvents(&hydrapb.SubscribeToEventsRequest{SwampName: gwSwamp}, st)
+	})
+	h.AtQuiescence(func() {
+		h.Assert(len(st.sent) == writers, "one-message-per-event")
+		for _, m := range st.sent {
+			w := 0
+			if m.Treasure.GetKey() == "k1" {
+				w = 1
+			}
+			h.Assert(m.Treasure.GetInt64Val() == vals[w], "message-carries-committed-value")
+			ts := m.EventTime
+			h.Assert(ts != nil && ts.Seconds*1_000_000_000+int64(ts.Nanos) == times[w], "message-time-is-the-change-time")
+		}
+		h.Cover("end")
+	})
+}
+
+func treasureForEvent(v int64, w int) treasure.Treasure {
+	t := treasure.New(nil)
+	g := t.StartTreasureGuard(true, guard.BodyAuthID)
+	key := "k0"
+	if w == 1 {
+		key = "k1"
+	}
+	t.BodySetKey(g, key)
+	t.SetContentInt64(g, v)
+	t.ReleaseTreasureGuard(g)
+	return t
 }
